@@ -1,7 +1,174 @@
-(* C08 — Array2D is a grid of independent cells for every width and height. *)
+(* C08 — Array2D is a grid of independent cells for every width and height.
+   Statements only; every proof is [exact] of a lemma from Arrays/Array2DProofs.v.
+   Quantifiers: every element type, every array that satisfies the shape
+   invariant [wf] (width, height >= 0, backing list of width*height elements —
+   established by every constructor, kept by every method, see below), every
+   coordinate / corner / span / jagged input.  No bound on width or height and
+   no relation between them (rectangular exactly as square).
+
+   Methods that write return (array after the call, panic of the call if any). *)
 From Typ Require Import Lib.Base Arrays.Array2D Arrays.Array2DProofs.
 Local Open Scope Z_scope.
 
-Theorem C08_index_range : forall w h x y, 0 <= x < w -> 0 <= y < h -> 0 <= x + y * w < w * h.
-Proof. exact idx_range. Qed.
-Print Assumptions C08_index_range.
+(* The index x + y*width used by all six sites stays inside the backing slice
+   and distinct cells have distinct indices. *)
+Theorem C08_index : forall w h x y x' y',
+  0 <= x < w -> 0 <= y < h -> 0 <= x' < w -> 0 <= y' < h ->
+  0 <= x + y * w < w * h /\ (x + y * w = x' + y' * w -> x = x' /\ y = y').
+Proof. exact idx_index. Qed.
+Print Assumptions C08_index.
+
+(* Get: total inside the bounds, panics outside. *)
+Theorem C08_get_in : forall (A : Type) (a : array2d A) x y, wf a -> in_bounds a x y ->
+  exists v, get a x y = Ok v /\ nth_error (cells a) (Z.to_nat (x + y * width a)) = Some v.
+Proof. exact @get_in. Qed.
+Print Assumptions C08_get_in.
+
+Theorem C08_get_out : forall (A : Type) (a : array2d A) x y, ~ in_bounds a x y ->
+  get a x y = Panic IndexOutOfRange.
+Proof. exact @get_out. Qed.
+Print Assumptions C08_get_out.
+
+(* Set(x,y,v) in bounds: no panic, same shape, Get(x,y) is v afterwards and
+   Get of every other coordinate (inside or outside the bounds) is what it was. *)
+Theorem C08_set_in : forall (A : Type) (a : array2d A) x y (v : A), wf a -> in_bounds a x y ->
+  exists a', set a x y v = (a', None) /\ wf a' /\ width a' = width a /\ height a' = height a /\
+    get a' x y = Ok v /\
+    forall x' y', (x', y') <> (x, y) -> get a' x' y' = get a x' y'.
+Proof. exact @set_in. Qed.
+Print Assumptions C08_set_in.
+
+(* Set outside the bounds panics and the array is unaltered. *)
+Theorem C08_set_out : forall (A : Type) (a : array2d A) x y (v : A), ~ in_bounds a x y ->
+  set a x y v = (a, Some IndexOutOfRange).
+Proof. exact @set_out. Qed.
+Print Assumptions C08_set_out.
+
+(* Get returns the last value stored: for EVERY sequence of in-bounds Set calls,
+   afterwards Get(x,y) is the value of the last Set to (x,y) in the sequence,
+   or what it was before if there was none. *)
+Theorem C08_get_last_stored : forall (A : Type) (ops : list (Z * Z * A)) (a : array2d A), wf a ->
+  Forall (fun o => in_bounds a (fst (fst o)) (snd (fst o))) ops ->
+  exists a', set_all a ops = (a', None) /\ wf a' /\ width a' = width a /\ height a' = height a /\
+    forall x y, get a' x y = match last_stored ops x y with Some v => Ok v | None => get a x y end.
+Proof. exact @set_all_spec. Qed.
+Print Assumptions C08_get_last_stored.
+
+(* Row(y): a window of exactly [width] positions; on the array as it is at any
+   later time ([a'], same shape), position i of the window reads what
+   Get(i,y) reads and writing it is Set(i,y,.) — the window is live and covers
+   exactly the cells of row y. *)
+Theorem C08_row : forall (A : Type) (a : array2d A) y, wf a -> 0 <= y < height a ->
+  exists win, row a y = Ok win /\ Z.of_nat (snd win) = width a /\
+    forall a' : array2d A, wf a' -> width a' = width a -> height a' = height a ->
+    forall i (v : A), 0 <= i < width a ->
+      win_get (cells a') win i = get a' i y /\
+      with_cells a' (win_store (cells a') win i v) = set a' i y v.
+Proof. exact @row_window. Qed.
+Print Assumptions C08_row.
+
+Theorem C08_row_out : forall (A : Type) (a : array2d A) y, ~ 0 <= y < height a ->
+  row a y = Panic IndexOutOfRange.
+Proof. exact @row_out. Qed.
+Print Assumptions C08_row_out.
+
+(* RowSpan(x1,x2,y) with x1 <= x2: exactly x2-x1+1 positions, position i is cell (x1+i, y), live. *)
+Theorem C08_row_span : forall (A : Type) (a : array2d A) x1 x2 y,
+  wf a -> 0 <= x1 -> x1 <= x2 -> x2 < width a -> 0 <= y < height a ->
+  exists win, row_span a x1 x2 y = Ok win /\ Z.of_nat (snd win) = x2 - x1 + 1 /\
+    forall a' : array2d A, wf a' -> width a' = width a -> height a' = height a ->
+    forall i (v : A), 0 <= i <= x2 - x1 ->
+      win_get (cells a') win i = get a' (x1 + i) y /\
+      with_cells a' (win_store (cells a') win i v) = set a' (x1 + i) y v.
+Proof. exact @row_span_window. Qed.
+Print Assumptions C08_row_span.
+
+Theorem C08_row_span_out : forall (A : Type) (a : array2d A) x1 x2 y,
+  ~ (0 <= x1 < width a /\ 0 <= x2 < width a /\ 0 <= y < height a) ->
+  row_span a x1 x2 y = Panic IndexOutOfRange.
+Proof. exact @row_span_out. Qed.
+Print Assumptions C08_row_span_out.
+
+(* A window gives access to nothing but its positions. *)
+Theorem C08_window_outside : forall (A : Type) (c : list A) (win : window) i (v : A),
+  ~ 0 <= i < Z.of_nat (snd win) ->
+  win_get c win i = Panic IndexOutOfRange /\ win_store c win i v = (c, Some IndexOutOfRange).
+Proof. exact @window_outside. Qed.
+Print Assumptions C08_window_outside.
+
+(* Fill with both corners in bounds, in whichever order: no panic, same shape,
+   every cell of the inclusive rectangle is v and every other cell is unchanged. *)
+Theorem C08_fill_in : forall (A : Type) (a : array2d A) x1 y1 x2 y2 (v : A),
+  wf a -> in_bounds a x1 y1 -> in_bounds a x2 y2 ->
+  exists a', fill a x1 y1 x2 y2 v = (a', None) /\
+    wf a' /\ width a' = width a /\ height a' = height a /\
+    forall x y, in_bounds a x y ->
+      get a' x y = if in_rect x1 y1 x2 y2 x y then Ok v else get a x y.
+Proof. exact @fill_in. Qed.
+Print Assumptions C08_fill_in.
+
+(* Fill with a corner outside the bounds panics and the array is unaltered. *)
+Theorem C08_fill_out : forall (A : Type) (a : array2d A) x1 y1 x2 y2 (v : A),
+  ~ (in_bounds a x1 y1 /\ in_bounds a x2 y2) ->
+  fill a x1 y1 x2 y2 v = (a, Some IndexOutOfRange).
+Proof. exact @fill_out. Qed.
+Print Assumptions C08_fill_out.
+
+(* Constructors: well-formed, of the requested shape, cells as the cell model says. *)
+Theorem C08_new2d : forall (A : Type) (zero : A) w h, 0 <= w -> 0 <= h ->
+  exists a, new2d zero w h = Ok a /\ wf a /\ width a = w /\ height a = h /\
+    forall x y, in_bounds a x y -> get a x y = Ok zero.
+Proof. exact @new2d_spec. Qed.
+Print Assumptions C08_new2d.
+
+Theorem C08_new2d_filled : forall (A : Type) (zero : A) w h (v : A), 0 <= w -> 0 <= h ->
+  exists a, new2d_filled zero w h v = Ok a /\ wf a /\ width a = w /\ height a = h /\
+    forall x y, in_bounds a x y -> get a x y = Ok v.
+Proof. exact @new2d_filled_spec. Qed.
+Print Assumptions C08_new2d_filled.
+
+(* New2DFromJagged never panics, whatever the jagged input (fewer, more, shorter,
+   longer rows): cell (x,y) is jagged[y][x] if that exists, else the zero value;
+   jagged values outside the bounds are ignored. *)
+Theorem C08_new2d_from_jagged : forall (A : Type) (zero : A) w h (jagged : list (list A)), 0 <= w -> 0 <= h ->
+  exists a, new2d_from_jagged zero w h jagged = Ok a /\ wf a /\ width a = w /\ height a = h /\
+    forall x y, in_bounds a x y ->
+      get a x y = Ok (match nth_error jagged (Z.to_nat y) with
+                      | Some r => match nth_error r (Z.to_nat x) with Some v => v | None => zero end
+                      | None => zero
+                      end).
+Proof. exact @new2d_from_jagged_spec. Qed.
+Print Assumptions C08_new2d_from_jagged.
+
+(* Clone: same shape, same cells (that the two do not share memory is a fact
+   about Go values the functional model cannot express; the harness probes it). *)
+Theorem C08_clone : forall (A : Type) (zero : A) (a : array2d A), clone zero a = a.
+Proof. exact @clone_spec. Qed.
+Print Assumptions C08_clone.
+
+(* String prints height rows of width values, the value at (x,y) being Get(x,y). *)
+Theorem C08_string : forall (A : Type) (a : array2d A), wf a ->
+  exists rows, string_rows a = Ok rows /\ length rows = Z.to_nat (height a) /\
+    forall x y, in_bounds a x y ->
+      exists r v, nth_error rows (Z.to_nat y) = Some r /\ length r = Z.to_nat (width a) /\
+                  nth_error r (Z.to_nat x) = Some v /\ get a x y = Ok v.
+Proof. exact @string_rows_spec. Qed.
+Print Assumptions C08_string.
+
+(* Non-vacuity: a 3x2 array (rectangular, width <> height).  Set(2,1) changes only
+   that cell; Fill with swapped corners assigns the rectangle (1..2, 0..1);
+   row 1 is the window (3,3); out-of-bounds calls panic and leave the array as it was;
+   a jagged input with a short row, a long row and an extra row. *)
+Example C08_example :
+  let a := Arr 3 2 [1;2;3;4;5;6] in
+  wf a /\ in_bounds a 2 1 /\
+  set a 2 1 9 = (Arr 3 2 [1;2;3;4;5;9], None) /\
+  set a 3 1 9 = (a, Some IndexOutOfRange) /\
+  fill a 2 1 1 0 7 = (Arr 3 2 [1;7;7;4;7;7], None) /\
+  fill a 0 0 0 2 7 = (a, Some IndexOutOfRange) /\
+  row a 1 = Ok (3%nat, 3%nat) /\ row_span a 1 2 1 = Ok (4%nat, 2%nat) /\
+  get a 0 1 = Ok 4 /\ get a 0 2 = Panic IndexOutOfRange /\
+  new2d_from_jagged 0 3 2 [[1]; [4;5;6;7]; [8]] = Ok (Arr 3 2 [1;0;0;4;5;6]) /\
+  new2d_filled 0 3 2 5 = Ok (Arr 3 2 [5;5;5;5;5;5]) /\
+  string_rows a = Ok [[1;2;3];[4;5;6]].
+Proof. vm_compute. repeat split; try discriminate; reflexivity. Qed.
